@@ -76,7 +76,9 @@ class proxy_info:
         else:
             self.proxy_port = 0
             self.auth = None
-            self.no_proxy = None
+            # the no_proxy option also exempts hosts from a proxy that is
+            # configured through the environment
+            self.no_proxy = options.get("http_no_proxy", None)
             self.proxy_protocol = "http"
 
 
